@@ -15,7 +15,7 @@ structure CntD (s : Sys) : Prop where
   k5 : countRaa s.pendA = 0
   k6 : s.a.paused = true → s.qab = []
 
-theorem CntD.init (va vb : Nat) : CntD (Sys.init va vb) :=
+theorem CntD.init (va vb f0 : Nat) : CntD (Sys.init va vb f0) :=
   ⟨Nat.le_refl _, Nat.le_refl _, rfl, rfl, rfl, fun h => by cases h⟩
 
 theorem CntD.step {s s' : Sys} {e : Ev} (hc : CntD s) (hc' : CntD s.swap) (h : step s e = some s') : CntD s' := by
@@ -84,6 +84,7 @@ theorem CntD.step {s s' : Sys} {e : Ev} (hc : CntD s) (hc' : CntD s.swap) (h : s
         | add _ _ => rw [e3.1]; simp [countCs, List.countP_cons] at k1 ⊢; omega
         | fulfill _ => rw [e3.1]; simp [countCs, List.countP_cons] at k1 ⊢; omega
         | fail _ => rw [e3.1]; simp [countCs, List.countP_cons] at k1 ⊢; omega
+        | fee _ => rw [e3.1]; simp [countCs, List.countP_cons] at k1 ⊢; omega
       exact ⟨key, by show _ ≤ n.raaSent; rw [e2]; exact k2, k3, k4, k5, hq6⟩
     · obtain ⟨hpa, m, rest, n, okb, hq, hm, e⟩ := step_recv_true h
       subst e
@@ -137,6 +138,15 @@ theorem CntD.step {s s' : Sys} {e : Ev} (hc : CntD s) (hc' : CntD s.swap) (h : s
           rw [e1, e6, e7]; exact k3
         · show n.raaSent + n.owesRaa = n.csRecv
           rw [e2, e4, e5]; omega
+      | fee id =>
+        obtain ⟨e4, e5, e6, e7⟩ := e3
+        refine ⟨by show _ ≤ n.csSent; rw [e1]; exact k1, ?_, ?_, ?_, k5, h6⟩
+        · show n.raaRecv + countRaa rest ≤ s.b.raaSent
+          rw [e6]; simp [countRaa] at k2 ⊢; omega
+        · show n.csSent = n.raaRecv + (if n.awaitingRaa then 1 else 0)
+          rw [e1, e6, e7]; exact k3
+        · show n.raaSent + n.owesRaa = n.csRecv
+          rw [e2, e4, e5]; omega
   | disconnect =>
     have e := step_disconnect h
     obtain ⟨pa1, pa2, pa3, pa4, pa5, pa6, pa7, pa8⟩ := pause_fields' s.a
@@ -181,6 +191,12 @@ theorem CntD.step {s s' : Sys} {e : Ev} (hc : CntD s) (hc' : CntD s.swap) (h : s
         split
         · rfl
         · exact (count_lastBatch _).2
+  | fee x f =>
+    cases x
+    · obtain ⟨_, _, _, _, _, e⟩ := step_fee_false h
+      subst e; exact ⟨k1, k2, k3, k4, k5, k6⟩
+    · obtain ⟨_, _, _, _, _, e⟩ := step_fee_true h
+      subst e; exact ⟨k1, k2, k3, k4, k5, k6⟩
 
 def Cnt (s : Sys) : Prop := CntD s ∧ CntD s.swap
 
@@ -200,8 +216,8 @@ theorem Cnt.run : ∀ (evs : List Ev) (s s' : Sys), Cnt s → Chan.run s evs = s
     | none => simp [hs] at h
     | some s1 => rw [hs] at h; exact ih s1 s' (hc.step hs) h
 
-theorem Cnt.init (va vb : Nat) : Cnt (Sys.init va vb) :=
-  ⟨CntD.init va vb, ⟨Nat.le_refl _, Nat.le_refl _, rfl, rfl, rfl, fun h => by cases h⟩⟩
+theorem Cnt.init (va vb f0 : Nat) : Cnt (Sys.init va vb f0) :=
+  ⟨CntD.init va vb f0, ⟨Nat.le_refl _, Nat.le_refl _, rfl, rfl, rfl, fun h => by cases h⟩⟩
 
 /-! ### event counts: the commitment numbers count the `commit` events (retransmissions do not) -/
 
@@ -252,6 +268,10 @@ theorem step_event_counts {s s' : Sys} {e : Ev} (h : step s e = some s') :
     · obtain ⟨n, p, hr, e⟩ := step_reest_true h
       obtain ⟨_, _, _, _, _, en, _⟩ := reestablish_some hr
       subst e; subst en; exact ⟨rfl, rfl⟩
+  | fee x f =>
+    cases x
+    · obtain ⟨_, _, _, _, _, e⟩ := step_fee_false h; subst e; exact ⟨rfl, rfl⟩
+    · obtain ⟨_, _, _, _, _, e⟩ := step_fee_true h; subst e; exact ⟨rfl, rfl⟩
 
 theorem run_event_counts : ∀ (evs : List Ev) (s s' : Sys), run s evs = some s' →
     s'.a.csSent = s.a.csSent + evs.countP (isCommit true) ∧
